@@ -90,18 +90,27 @@ pub const KF_CAPTURE_BY_VALUE: &str = "C18-destructured-capture-by-value";
 /// backend mixes the pointer representation with the scalar one
 pub const KF_ONE_TUPLE: &str = "C18-one-tuple-as-float";
 
+/// `f({a = 1.0, ..})` with the remaining parameters defaulted: the Rust generator nests the
+/// synthesized `self.__default_*()` calls in the argument list of `self.f(..)`: rustc error E0499
+pub const KF_DEFAULT_ARGS: &str = "C18-default-arg-expansion-borrow";
+
+/// a NaN used as an `if` condition selects the then-arm on the VM and the else-arm in the emitted
+/// Rust (`truthy` is `> 0.0`); same shape as C01-nan-condition (VM vs WASM)
+pub const KF_NAN_COND: &str = "C18-nan-condition";
+
 const SIG_DIFF: &str = "c18:output-differs-from-vm";
 
 /// Narrow tolerances: (finding id, does this failure belong to it?).  Each needs the failure
 /// signature of the finding AND the finding's code shape in the emitted Rust / the source.
-fn tolerated(sig: &str, src: &str, pat: &Patterns, cx: &Cx) -> Option<&'static str> {
+fn tolerated(sig: &str, msg: &str, src: &str, pat: &Patterns, cx: &Cx) -> Option<&'static str> {
     if cx.strict {
         return None;
     }
-    let table: [(&'static str, bool); 6] = [
+    let table: [(&'static str, bool); 7] = [
+        (KF_DEFAULT_ARGS, sig.starts_with("c18:emitted-rust-does-not-compile:E0499:") && pat.nested_default_call && src.contains("..")),
         (KF_STATE_OPERAND_PROJ, sig.starts_with("c18:emitted-rust-does-not-compile:E0502:") && pat.state_operand_load),
         (KF_MATH_EXT, sig.starts_with("c18:generated-program-crashed:unwrap-err:unexpected-external-call") && EXT_MATH_1.iter().chain(EXT_MATH_2.iter()).any(|f| src.contains(&format!("{f}(")))),
-        (KF_ONE_TUPLE, (sig.starts_with("c18:generated-program-crashed:unwrap-err:invalid-memory-handle") || (sig == SIG_DIFF && pat.alloc_handle_as_number)) && pat.one_tuple),
+        (KF_ONE_TUPLE, (sig.starts_with("c18:generated-program-crashed:unwrap-err:invalid-memory-handle") || (sig == SIG_DIFF && pat.alloc_handle_as_number) || (sig.starts_with("c18:emitted-rust-does-not-compile:E0308:") && msg.contains("(u64,)"))) && pat.one_tuple),
         (KF_DELAY_TIME_PROJ, sig == SIG_DIFF && pat.delay_time_element_ptr),
         (KF_IF_ARM_PROJ, sig == SIG_DIFF && pat.phi_of_element_ptr),
         (KF_CAPTURE_BY_VALUE, sig == SIG_DIFF && pat.element_captured_by_value_and_assigned),
@@ -219,6 +228,8 @@ struct Patterns {
     /// the handle of an aggregate allocation is read as a number (`word_to_f64(reg)` / `truthy(reg)`
     /// of a register assigned by `memory.alloc`)
     alloc_handle_as_number: bool,
+    /// a synthesized `self.__default_*()` call is nested in the argument list of a `self.f(..)` call
+    nested_default_call: bool,
 }
 
 fn reg_no(s: &str) -> Option<u32> {
@@ -279,6 +290,9 @@ fn analyse_fn(lines: &[&str], p: &mut Patterns) {
                 }
                 from = at + 4;
             }
+        }
+        if t.starts_with("let call_result = self.") && (t.contains(", self.__default_") || t.contains("(self.__default_")) {
+            p.nested_default_call = true;
         }
         if t.contains("state.mem(self.memory.load(") || t.contains("state.delay(self.memory.load(") {
             p.state_operand_load = true;
@@ -360,6 +374,10 @@ fn qualifier(msg: &str) -> String {
         unq = rest[i + "on an `Err` value: ".len()..].replace(['"', '\\'], "");
         rest = &unq;
         code = "unwrap-err".to_string();
+        // the name of the missing external function is not part of the root cause
+        if rest.starts_with("unexpected external call") {
+            return "unwrap-err:unexpected-external-call".to_string();
+        }
     }
     if let Some(r) = rest.strip_prefix("error[") {
         if let Some(i) = r.find(']') {
@@ -435,7 +453,7 @@ fn check(src: &str, inputs: &Inputs, n: u64) -> Out {
             return o;
         }
         Exec::NoIo => {
-            o.discard = Some("no-dsp".into());
+            o.discard = Some("no-dsp-io-on-vm".into());
             return o;
         }
         // a VM crash leaves no reference behaviour (C03's subject)
@@ -478,6 +496,7 @@ fn check(src: &str, inputs: &Inputs, n: u64) -> Out {
             return o;
         }
         Child::Done { ok: false, stderr, .. } => {
+            let stderr = stderr.replace(&*dir.0.to_string_lossy(), "<scratch>");
             let line = first_error_line(&stderr);
             // a rustc killed by the environment (out of memory, signal) is not a verdict
             if !stderr.contains("error") {
@@ -502,6 +521,7 @@ fn check(src: &str, inputs: &Inputs, n: u64) -> Out {
             return o;
         }
         Child::Done { ok: false, code, stdout, stderr } => {
+            let stderr = stderr.replace(&*dir.0.to_string_lossy(), "<scratch>");
             let msg = panic_message(&stderr);
             let done = stdout.lines().filter(|l| l.starts_with('=')).count();
             fail!(format!("generated-program-crashed:{}", qualifier(&msg)), "the generated program ended with {} after {done} of {n} samples (the VM ran all of them): {msg}", code.map(|c| format!("exit code {c}")).unwrap_or_else(|| "a signal".into()));
@@ -551,7 +571,7 @@ fn finish(src: &str, inputs: &Inputs, n: u64, classes: Vec<String>, featureful: 
         r.direct = Some(direct);
         return r;
     }
-    let known = o.fail.as_ref().and_then(|(s, _)| tolerated(s, src, &o.pat, cx));
+    let known = o.fail.as_ref().and_then(|(s, m)| tolerated(s, m, src, &o.pat, cx));
     let mut r = match (&o.fail, known) {
         (Some(_), Some(id)) => {
             let mut r = CaseResult::held(hash);
@@ -607,8 +627,12 @@ fn pcfg(cx: &Cx) -> (prog::PCfg, Vec<&'static str>) {
     c.block_operands = true;
     c.proj_in_cond = true;
     c.capture_destructured = true;
+    c.raw_conditions = !cx.excluded(KF_NAN_COND);
     let vm_side = [c01::KF_IF_STATE, c01::KF_MULTI_DELAY, c01::KF_NAN_COND, c01::KF_UNRESOLVED_SELF];
-    let off = off.into_iter().filter(|id| vm_side.contains(id)).collect();
+    let mut off: Vec<&'static str> = off.into_iter().filter(|id| vm_side.contains(id) && *id != c01::KF_NAN_COND).collect();
+    if !c.raw_conditions {
+        off.push(KF_NAN_COND);
+    }
     (c, off)
 }
 
@@ -748,11 +772,29 @@ impl Prop for C18 {
     }
     fn spaces(&self, tier: Tier) -> Vec<Space> {
         match tier {
-            Tier::Quick => vec![Space { name: "gen", size: 112, exhaustive: false, chunk: 8, case_timeout_s: 120.0, what: "generated typed core-language programs x input streams x run lengths (1-16 samples)" }],
-            Tier::Thorough => vec![Space { name: "gen", size: 6000, exhaustive: false, chunk: 8, case_timeout_s: 120.0, what: "generated typed core-language programs x input streams x run lengths (1-16 samples)" }],
+            Tier::Quick => vec![
+                Space { name: "gen", size: 88, exhaustive: false, chunk: 8, case_timeout_s: 120.0, what: "generated typed core-language programs x input streams x run lengths (1-16 samples)" },
+                Space { name: "corpus", size: 16, exhaustive: false, chunk: 8, case_timeout_s: 120.0, what: "shipped sources without plugin calls and literal/operator mutants of them x run lengths" },
+            ],
+            Tier::Thorough => vec![
+                Space { name: "gen", size: 5000, exhaustive: false, chunk: 8, case_timeout_s: 120.0, what: "generated typed core-language programs x input streams x run lengths (1-16 samples)" },
+                Space { name: "corpus", size: 1000, exhaustive: false, chunk: 8, case_timeout_s: 120.0, what: "shipped sources without plugin calls and literal/operator mutants of them x run lengths" },
+            ],
         }
     }
-    fn run(&self, _space: &str, _index: u64, g: &mut Gen, cx: &Cx) -> CaseResult {
+    fn run(&self, space: &str, _index: u64, g: &mut Gen, cx: &Cx) -> CaseResult {
+        if space == "corpus" {
+            let no_defaults = cx.excluded(KF_DEFAULT_ARGS);
+            let (src, m) = c01::corpus_case(g, no_defaults);
+            let inputs = gen_inputs(g);
+            let n = *g.pick(&[8u64, 16, 4, 1]);
+            // scheduler (`@`) and other plugin calls are outside the property's quantifier
+            let code: String = src.lines().map(|l| l.split("//").next().unwrap_or("")).collect::<Vec<_>>().join("\n");
+            if code.contains('@') || code.contains("_mimium_schedule_at") {
+                return CaseResult::discard("plugin-call");
+            }
+            return finish(&src, &inputs, n, vec!["mode:corpus".to_string(), format!("mut:{m}")], text_stateful(&src), cx);
+        }
         let (cfg, off) = pcfg(cx);
         let mut pg = PG::new(g, cfg);
         let mut p = pg.program();
@@ -761,7 +803,7 @@ impl Prop for C18 {
         apply_exclusions(&mut p, cx, &mut counters);
         let src = prog::render(&p, &Layout::default());
         let inputs = gen_inputs(g);
-        let n = *g.pick(&[4u64, 8, 16, 1, 2, 3, 5, 12]);
+        let n = *g.pick(&[8u64, 16, 4, 12, 6, 2, 1]);
         let classes = feat.classes();
         let featureful = feat.stateful() || classes.iter().any(|c| matches!(c.as_str(), "f:local-closure" | "f:global-closure" | "f:maker-closure" | "f:hof" | "f:stateful-call"));
         let mut r = finish(&src, &inputs, n, classes, featureful, cx);
@@ -798,7 +840,7 @@ impl Prop for C18 {
         out
     }
     fn rule(&self) -> String {
-        "Cases are (program, input stream, run length 1-16). Programs: type-directed generation over the core language (ProgGen: arithmetic/comparison/logic, builtins, let with tuple/record patterns, if, blocks, named functions, lambdas, local closures, counter-maker closures bound at global scope, higher-order functions, pipes, self (scalar and tuple), mem, delay, now, samplerate, globals, dsp with 0-3 inputs and 1-4 outputs), no plugin calls. Oracle: Context::emit_rust(src) either answers Err (refusal: legal) or Rust source which, concatenated with the repository's test host template (host: now = sample index, samplerate 48000, every external call answered Err as in rust_codegen_test.rs), must compile with `rustc --edition=2024 -C debuginfo=0 -C opt-level=0`, exit with status 0 and print, for every sample, exactly the output words (f64 bits, NaN = NaN) that exec::run_vm yields for the same inputs; the I/O channel counts reported by emit_rust must equal the VM's. Child processes are killed after 30 s (discarded as slow). Non-trivial = Rust was emitted, compiled and run and the program has a stateful or closure feature; distinct by source+inputs+length.".into()
+        "Cases are (program, input stream, run length 1-16). Space gen: type-directed generation over the core language (ProgGen: arithmetic/comparison/logic, builtins, let with tuple/record patterns, if, blocks, named functions, lambdas, local closures, counter-maker closures bound at global scope, higher-order functions, pipes, self (scalar and tuple), mem, delay, now, samplerate, globals, dsp with 0-3 inputs (one float or one tuple parameter) and 1-4 outputs), no plugin calls; program shapes of recorded findings are rewritten or switched off (counters). Space corpus: shipped .mmm sources without scheduler/plugin calls, unchanged or with one literal/operator mutation. Oracle: Context::emit_rust(src) either answers Err (refusal: legal, class `refused`) or Rust source which, concatenated with the repository's test host template (mimium_test_main.rs.template; host as in rust_codegen_test.rs: now = sample index, samplerate 48000, every external call answered Err; dsp inputs passed as words to call_dsp; call_main first when it exists), must compile with `rustc --edition=2024 -C debuginfo=0 -C opt-level=0`, exit with status 0 and print, for every sample, exactly the output words (f64 bits, NaN = NaN) that exec::run_vm yields for the same inputs; the I/O channel counts reported by emit_rust must equal the VM's; a panic inside the Rust generator is a failure. Programs the VM rejects, crashes on or reports no dsp I/O for are discarded; child processes are killed after 30 s (discarded as slow). Non-trivial = Rust was emitted, compiled and run, the verdict is not a tolerated known finding, and the program has a stateful or closure feature; distinct by source+inputs+length.".into()
     }
     fn assumptions(&self) -> Vec<String> {
         vec![
@@ -808,6 +850,6 @@ impl Prop for C18 {
         ]
     }
     fn required_classes(&self, _tier: Tier) -> Vec<&'static str> {
-        vec!["compiled", "ran", "f:self", "f:mem"]
+        vec!["compiled", "ran", "output-varies", "multi-out", "f:self", "f:mem", "f:delay", "f:tuple", "f:record", "f:branch", "f:local-closure", "f:maker-closure", "f:hof", "f:stateful-call", "mode:corpus"]
     }
 }
